@@ -10,6 +10,7 @@ import (
 	"flag"
 	"fmt"
 	"os"
+	"os/exec"
 	"path/filepath"
 	"runtime"
 	"sort"
@@ -364,4 +365,76 @@ func Hex(b []byte) string {
 		return hex.EncodeToString(b[:48]) + fmt.Sprintf("…(%dB)", len(b))
 	}
 	return hex.EncodeToString(b)
+}
+
+// RaceAudit runs the free-running race-detector pass of a check: the test package
+// race/<pkg> (harness bodies on several goroutines, no controlled scheduler) under
+// `go test -race`. It is an audit that complements the exhaustive part — a cooperative
+// scheduler hides unsynchronised plain-memory accesses, and a single-goroutine
+// enumeration cannot see state shared between calls. Every DATA RACE report whose stack
+// contains a gouroboros frame, and every RACEAUDIT-MISMATCH line printed by the test,
+// becomes a violation keyed by the first gouroboros function involved. Problems of the
+// audit itself (no cgo, build failure) are recorded as a note, never as a verdict.
+func (c *Check) RaceAudit(pkg string) {
+	vgo := os.Getenv("VGO")
+	if vgo == "" {
+		vgo = "go"
+	}
+	args := []string{"test", "-race", "-count=1", "-vet=off"}
+	if mf := os.Getenv("VERIF_MODFILE"); mf != "" {
+		args = append(args, "-modfile="+mf)
+	}
+	args = append(args, "./race/"+pkg)
+	cmd := exec.Command(vgo, args...)
+	cmd.Dir = Root()
+	cmd.Env = append(os.Environ(), "CGO_ENABLED=1", "GORACE=halt_on_error=0")
+	out, err := cmd.CombinedOutput()
+	text := string(out)
+	races, mism := 0, 0
+	lines := strings.Split(text, "\n")
+	for i := 0; i < len(lines); i++ {
+		ln := lines[i]
+		if strings.HasPrefix(ln, "RACEAUDIT-MISMATCH ") {
+			mism++
+			key := "race-audit|mismatch"
+			if j := strings.Index(ln, "key="); j >= 0 {
+				key = "race-audit|" + strings.Fields(ln[j+4:])[0]
+			}
+			c.Violation(key, ln, map[string]any{"cmd": vgo + " " + strings.Join(args, " ")})
+		}
+		if strings.HasPrefix(ln, "RACEAUDIT-STATS ") {
+			c.Set("race_audit_stats", strings.TrimPrefix(ln, "RACEAUDIT-STATS "))
+		}
+		if strings.Contains(ln, "WARNING: DATA RACE") {
+			fn := ""
+			var block []string
+			for k := i; k < len(lines) && k < i+60 && !strings.HasPrefix(lines[k], "=================="); k++ {
+				block = append(block, lines[k])
+				f := strings.TrimSpace(lines[k])
+				if fn == "" && strings.HasPrefix(f, "github.com/blinklabs-io/gouroboros/") && !strings.Contains(f, "/verifrt") {
+					fn = strings.TrimPrefix(f, "github.com/blinklabs-io/gouroboros/")
+					if p := strings.Index(fn, "("); p > 0 && !strings.HasPrefix(fn[p:], "(*") {
+						fn = fn[:p]
+					} else if q := strings.LastIndex(fn, "("); q > 0 {
+						fn = fn[:q]
+					}
+				}
+			}
+			if fn == "" {
+				continue // race inside the audit's own code: not the repository's
+			}
+			races++
+			c.Violation("race-audit|data-race|"+fn, "go test -race reports a data race in "+fn+" (concurrent callers on disjoint inputs)",
+				map[string]any{"cmd": vgo + " " + strings.Join(args, " "), "report": block})
+		}
+	}
+	c.Set("race_audit", map[string]any{"package": "race/" + pkg, "data_race_reports": races, "mismatch_lines": mism,
+		"role": "free-running -race pass of the harness bodies (audit; the exhaustive enumeration is the deciding step)"})
+	if err != nil && races == 0 && mism == 0 {
+		tail := text
+		if len(tail) > 600 {
+			tail = tail[len(tail)-600:]
+		}
+		c.Note("race audit did not run to completion (no verdict from it): " + strings.TrimSpace(tail))
+	}
 }
